@@ -57,7 +57,9 @@ def kind(k, p):
 
 
 KINDS = ["u8", "string", "ref", "mut", "refref", "str", "slice", "nodbg", "refnodbg", "optref", "gen_dbg", "gen_nodbg"]
-ERRORS = ["no_impl", "no_match", "ordered_mismatch", "out_of_range", "more_than_once", "explicit", "no_output", "cannot_unmock", "no_default"]
+ERRORS = ["no_impl", "no_match", "ordered_mismatch", "out_of_range", "more_than_once", "explicit", "no_output", "cannot_unmock", "no_default",
+          # the same post-selection failures raised by the *second* pattern of the method (the first rejects)
+          "explicit_2nd", "more_than_once_2nd", "no_output_2nd", "explicit_2nd_text"]
 
 
 def render_a(idx, kinds, err):
@@ -102,6 +104,21 @@ def render_a(idx, kinds, err):
     elif err == "explicit":
         new = f"Unimock::new({mf}.each_call({always}).panics(\"boom\"))"
         expect = f"{callname}: Explicit panic from call pattern Tr::f[#0]: boom"
+    elif err == "explicit_2nd":
+        new = f"Unimock::new({mf}.stub(|each| {{ each.call({never}).returns(1u32); each.call({always}).panics(\"boom\"); }}))"
+        expect = f"{callname}: Explicit panic from call pattern Tr::f[#1]: boom"
+    elif err == "explicit_2nd_text":
+        # patterns written with matching!: the failing one is named by its own text and line
+        wild = ", ".join("_" for _ in kinds)
+        new = f"Unimock::new(({mf}.each_call({never}).returns(1u32),\n            {mf}.each_call({never}).returns(2u32),\n            {mf}.each_call(matching!({wild})).panics(\"boom\")))"
+        expect = None
+    elif err == "more_than_once_2nd":
+        new = f"Unimock::new(({mf}.each_call({never}).returns(1u32), {mf}.some_call({always}).returns(2u32)))"
+        pre = "FIRST"
+        expect = f"{callname}: Cannot return value more than once from call pattern Tr::f[#1], because of missing Clone bound. Try using `.each_call()` or explicitly quantifying the response."
+    elif err == "no_output_2nd":
+        new = f"Unimock::new({mf}.stub(|each| {{ each.call({never}).returns(1u32); each.call({always}); }}))"
+        expect = f"{callname}: No output available for after matching call pattern Tr::f[#1]."
     elif err == "no_output":
         new = f"Unimock::new({mf}.stub(|each| {{ each.call({always}); }}))"
         expect = f"{callname}: No output available for after matching call pattern Tr::f[#0]."
@@ -121,6 +138,24 @@ def render_a(idx, kinds, err):
         first_call = f"""
         {setups2}
         let _ = <Unimock as Tr>::f(&u{', ' + args2 if args2 else ''});"""
+    if expect is None:
+        pat = "(" + ", ".join("_" for _ in kinds) + ")" if kinds else "()"
+        return f"""    #[unimock(api=Mk)]
+    pub trait Tr {{
+        fn f{g}(&self{", " + params if params else ""}) -> u32;
+    }}
+    pub fn run() -> Result<(), String> {{
+        let first_line = line!() + 1;
+        let u = {new}.no_verify_in_drop();
+        {setups}
+        let r = vh::obs::catch(|| {call});
+        let expect = format!("{{}}: Explicit panic from {{}} at {{}}:{{}}: boom", {rs_str(callname)}, {rs_str("Tr::f" + pat)}, file!(), first_line + 2);
+        match r {{
+            Err(msg) if msg == expect => Ok(()),
+            other => Err(format!("expected the message {{expect:?}}, observed {{other:?}}")),
+        }}
+    }}
+"""
     return f"""    #[unimock(api=Mk)]
     pub trait Tr {{
         fn f{g}(&self{", " + params if params else ""}) -> u32;
